@@ -176,6 +176,31 @@ def mwClose (c : WConn) (w : MW) : WConn × MW × Option WErr :=
     | (c, w, some e) => sync (c, w, some e)
     | (c, w, none) => (c, { w with err := some .writeClosed }, none)
 
+/-- One call on an open message writer (the three ways the API accepts payload). -/
+inductive WOp where
+  | write (p : Bytes)                          -- `w.Write(p)`
+  | writeString (p : Bytes)                    -- `io.WriteString(w, p)` → `w.WriteString(p)`
+  | readFrom (chunks : List Nat) (p : Bytes)   -- `io.Copy(w, r)` → `w.ReadFrom(r)`; `chunks` = the source's chunking
+  deriving Repr
+
+def WOp.data : WOp → Bytes
+  | .write p => p
+  | .writeString p => p
+  | .readFrom _ p => p
+
+def mwOp (c : WConn) (w : MW) : WOp → WConn × MW × Option WErr
+  | .write p => mwWrite c w p
+  | .writeString p => mwWriteString c w p
+  | .readFrom ks p => mwReadFrom c w ks p
+
+/-- A sequence of calls on the same writer; stops at the first error. -/
+def mwOps (c : WConn) (w : MW) : List WOp → WConn × MW × Option WErr
+  | [] => (c, w, none)
+  | op :: ops =>
+    match mwOp c w op with
+    | (c, w, some e) => (c, w, some e)
+    | (c, w, none) => mwOps c w ops
+
 /-- `prepWrite`: a writer the application left open is closed first (its error is ignored, and what
 it still had buffered goes out as a final frame if `flushFrame` accepts it); then the opcode and
 the `writeErr` latch are checked. Only plain `messageWriter`s are tracked in `c.writer` (a
@@ -213,6 +238,24 @@ def writeMessage (c : WConn) (messageType : Nat) (data : Bytes) : WConn × Optio
       match mwWrite c w data with
       | (c, _, some e) => (c, some e)
       | (c, w, none) => let (c, _, e) := mwClose c w; (c, e)
+
+/-- One data message through `NextWriter`, any sequence of calls on the writer, `Close`. With
+compression negotiated the calls are the `truncWriter`'s downstream writes (see `deflateChunks`). -/
+def writeMsg (c : WConn) (messageType : Nat) (ops : List WOp) : WConn × Option WErr :=
+  match nextWriter c messageType with
+  | (c, .error e) => (c, some e)
+  | (c, .ok w) =>
+    match mwOps c w ops with
+    | (c, _, some e) => (c, some e)
+    | (c, w, none) => let (c, _, e) := mwClose c w; (c, e)
+
+/-- A session: messages written one after the other. -/
+def writeMsgs (c : WConn) : List (Nat × List WOp) → WConn × Option WErr
+  | [] => (c, none)
+  | (ty, ops) :: rest =>
+    match writeMsg c ty ops with
+    | (c, some e) => (c, some e)
+    | (c, none) => writeMsgs c rest
 
 /-- `WriteControl` (deadline/timeout not modelled). -/
 def writeControl (c : WConn) (messageType : Nat) (data : Bytes) : WConn × Option WErr :=
